@@ -478,7 +478,10 @@ impl McnkChunk {
 /// data is read through a length-limited adapter instead of being allocated up front.
 fn read_sized<R: Read>(reader: &mut R, size: u32) -> BinResult<Vec<u8>> {
     let mut data = Vec::new();
-    reader.by_ref().take(u64::from(size)).read_to_end(&mut data)?;
+    reader
+        .by_ref()
+        .take(u64::from(size))
+        .read_to_end(&mut data)?;
     if data.len() != size as usize {
         return Err(std::io::Error::from(std::io::ErrorKind::UnexpectedEof).into());
     }
